@@ -565,3 +565,68 @@ func GenRegex(r *run.Rand) MatcherSpec {
 	}
 	return MatcherSpec{Kind: "regex", Pattern: `(key)=(\w+)`}
 }
+
+// ---------------------------------------------------------------- same line numbers, different sources
+
+var sameLineMatchers = []MatcherSpec{
+	{Kind: "regex", Pattern: `(?P<verb>[A-Za-z]+) (\d*) ?(?P<who>\S*)`},
+	{Kind: "regex", Pattern: `(\w+) (\d+) (\w+)`},
+	{Kind: "dissect", Pattern: "%{verb} %{n} %{who}"},
+	{Kind: "regex", Pattern: `^(?P<verb>\S+)(?: (?P<n>\d+))?(?: (?P<who>.*))?$`},
+}
+
+// views of the whole match (JSON views, the group array, position keys) next to plain groups
+var sameLineExtracts = []string{
+	"{.}", "{#}", "{.#}", "{#.}", "{@}", "{@join {@} +}", "{@len {@}}:{1}", "{src}#{line}#{1}", "{.}|{0}", "{1}|{#}", "{@select {@} 1}-{@select {@} 0}",
+	"{line}:{.#}", "{@map {@} {upper {0}}}", "{verb}/{who}/{.}", "{$ {1} {@} {2}}", "{0}",
+}
+
+var sameLineIgnores = [][]string{nil, nil, {"{eq {@select {@} 0} skip}"}, {"{like {.} skipme}"}, {"{eq {1} skip}", "{eq {@len {@}} 99}"}}
+
+// GenSameLines: many small inputs (one to three lines each) of one shape and different content, read with small
+// batches by few workers: the same worker evaluates line N of one input and then line N of another, back to back.
+// Anything a worker's expression context keeps from one line to the next (a rendering kept per line number, a
+// buffer, a lazily built view) meets a different line with the same number here.
+func GenSameLines(r *run.Rand) *Workload {
+	w := &Workload{Scenario: "samelines", Matcher: sameLineMatchers[r.Intn(len(sameLineMatchers))], Extract: sameLineExtracts[r.Intn(len(sameLineExtracts))],
+		Ignore: sameLineIgnores[r.Intn(len(sameLineIgnores))], Seed: r.U64()}
+	if w.Matcher.Pattern == `(\w+) (\d+) (\w+)` && strings.Contains(w.Extract, "{verb}") {
+		w.Extract = "{1}/{3}/{#}"
+	}
+	nIn := r.Range(2, 40)
+	per := r.Range(1, 3)
+	verbs := []string{"GET", "POST", "PUT", "skip", "skipme", "a", "b", "DELETE", "x"}
+	for i := 0; i < nIn; i++ {
+		var sb strings.Builder
+		n := per
+		if r.Intn(4) == 0 {
+			n = r.Range(1, 3)
+		}
+		for l := 0; l < n; l++ {
+			fmt.Fprintf(&sb, "%s %d w%d_%d\n", verbs[r.Intn(len(verbs))], r.Intn(1000), i, l)
+		}
+		w.Inputs = append(w.Inputs, Input{Name: fmt.Sprintf("s%d", i), Data: []byte(sb.String())})
+	}
+	w.Cfg = Config{Mode: "files", Batch: pickI(r, []int{1, 1, 2, 3, 1000}), Workers: pickI(r, []int{1, 1, 2, 3}), Readers: pickI(r, []int{1, 2, 8}),
+		Buffer: pickI(r, latBuffer), GoMaxProcs: pickI(r, latProcs), Delay: "none", Consumer: "fast"}
+	return w
+}
+
+// AddGone names paths at which nothing exists among the inputs of a files-mode workload: one, as many as there are
+// reader slots, or one more than that, anywhere in the argument list. The other inputs must still be read completely
+// (every line exactly once) and the run must end.
+func AddGone(r *run.Rand, w *Workload) int {
+	k := []int{1, w.Cfg.Readers, w.Cfg.Readers + 1}[r.Intn(3)]
+	for i := 0; i < k; i++ {
+		at := r.Intn(len(w.Inputs) + 1)
+		if r.Intn(3) == 0 {
+			at = 0 // before every readable input
+		}
+		g := Input{Name: fmt.Sprintf("gone%d", i), Gone: true}
+		w.Inputs = append(w.Inputs[:at:at], append([]Input{g}, w.Inputs[at:]...)...)
+		if w.Classes != nil {
+			w.Classes = append(w.Classes[:at:at], append([][]byte{nil}, w.Classes[at:]...)...)
+		}
+	}
+	return k
+}
